@@ -375,6 +375,7 @@ def run(ctx):
                         cases.append((l, "corpus"))
         cases += gen_cases(ctx, rng, ctx.n(700, 20000), 9, 3)
         cases += gen_kcases(rng, ctx.n(60, 3000))
+        cases += gen_565cases(rng, ctx.n(60, 3000))
     kl = [c[0] for c in cases if c[0].startswith("K ")]
     if kl:
         run_kcases(ctx, kl, exes, drv, flavours)
@@ -382,6 +383,50 @@ def run(ctx):
     if not cases:
         return None
     return run_cases(ctx, cases, exes, drv, flavours)
+
+
+def gen_565cases(rng, n):
+    """JCS_RGB565 (ocs 2: JDITHER_NONE, ocs 4: ordered dither) x merged h2v2 / h2v1 upsampling x jpeg_crop_scanline x
+    schedules that hand out odd rows from the merged upsampler's spare row (one-row reads), skips issued at even
+    scanlines (no hazard 3).  Dithered output depends on the number of rows per call, so those histories read one
+    row at a time, as the reference full decode does.  Exact-size output rows (ASan / guard bytes)."""
+    out = []
+    for _ in range(n):
+        samp = rng.choice(["221111", "221111", "211111"])
+        vmax = int(samp[1])
+        W, H = rng.range(40, 200), rng.range(12, 70)
+        head = "%d %d %s %d %d 8 %d %d" % (W, H, samp, rng.choice([0, 0, 1, 2]), rng.choice([0, 0, 1]), rng.choice([0, 0, 4]), rng.range(1, 1 << 20))
+        M = rng.choice([8, 8, 8, 4, 16, 12])
+        ocs = rng.choice([2, 4])
+        ow, oh = ceil_div(W * M, 8), ceil_div(H * M, 8)
+        L, align = M * vmax, M * 2
+        r = rng.below(6)
+        if r == 0:
+            cx, cw = -1, 0
+        else:
+            cx = rng.range(0, ow - 1)
+            cw = rng.choice([ow - cx, rng.range(1, ow - cx), max(1, min(ow - cx, rng.range(2 * ow // 3, ow))), rng.range(1, min(ow - cx, 2 * align))])
+            cw = max(1, min(cw, ow - cx))
+        ops, y = [], 0
+        for _k in range(rng.range(1, 4)):
+            for _j in range(rng.range(1, 5)):
+                ops.append("R1"); y += 1
+            if ocs == 2 and rng.chance(1, 3):
+                n = rng.range(2, 5); ops.append("R%d" % n); y += n
+            if y % 2:
+                ops.append("R1"); y += 1
+            if y >= oh:
+                break
+            n = rng.choice([1, 2, 3, L - 1, L, L + 1, (L - y % L) % L, (L - y % L) % L + 1, rng.range(0, 3 * L)])
+            ops.append("S%d" % n); y += n
+            if y >= oh:
+                break
+        tail = rng.range(1, 7)
+        ops += ["R1"] * tail
+        if ocs == 2:
+            ops.append("R%d" % (oh + 3))
+        out.append(("L %s | %d 0 %d 0 %d | %d %d | %s" % (head, M, rng.choice([0, 0, 1]), ocs, cx, cw, " ".join(ops)), "rgb565"))
+    return out
 
 
 def gen_kcases(rng, n):
@@ -651,6 +696,13 @@ def run_cases(ctx, cases, exes, drv, flavours):
             if same and iprov is not None and mprov is not None:
                 mp = [dup.get(v, v) for v in mprov]
                 same = len(mp) == len(iprov) and all(a == b or b == -1 for a, b in zip(iprov, mp))
+        # ---- bytes written past the end of an exact-size output row (guard bytes of the non-ASan builds): never exempt ----
+        for fl in flavours:
+            o = outs[fl][0][i]
+            if o and "OVERRUN=" in o:
+                ctx.violation("the library writes past the end of the caller's output row (%s build): %s" % (fl, o[o.index("OVERRUN="):][:120]),
+                              {"case": rline, "pass_as_L_line": line, "flavour": fl, "impl": o[:1500]}, signature="overrun:" + ("tj" if is_tj else "lib"))
+                break
         # ---- property-level oracle (independent of the model) ----
         pbad = (py_oracle_tj if is_tj else py_oracle_lib)(line, ihead, px)
         mixed = bool(hz and band)      # a skip hazard AND the block-smoothing left-edge band: pixel differences cannot be attributed
